@@ -192,12 +192,35 @@ def minimise(engine, choices, target, budget=400, wall_s=90.0):
             return None
         v = res.get("violation")
         if v and (v["clause"], v["key"]) == target:
+            last_tags[:] = list(getattr(ch, "tags", ()))[:len(ch.log)]
             return list(ch.log)
         return None
 
+    last_tags = []
     cur = fails(list(choices))
     if cur is None:
         return list(choices), spent[0]
+    # 0. scenario sizes first: draws whose tag names a count (steps, devices, hosts, ids, generators, rules ...)
+    size_tags = ("nsteps", "ndev", "n", "nhosts", "ngens", "nslots", "len", "nrules", "nglobals", "prod-ndev", "nrows", "long")
+    for _round in range(40):
+        changed = False
+        tags = list(last_tags)
+        for i in range(min(len(cur), len(tags))):
+            if spent[0] >= budget // 3:
+                break
+            if tags[i] in size_tags and cur[i] > 0:
+                for nv in (0, cur[i] // 2, cur[i] - 1):
+                    if nv >= cur[i]:
+                        continue
+                    r = fails(cur[:i] + [nv] + cur[i + 1:])
+                    if r is not None and len(r) <= len(cur):
+                        cur = r
+                        changed = True
+                        break
+                if changed:
+                    break
+        if not changed or spent[0] >= budget // 3:
+            break
     improved = True
     while improved and spent[0] < budget:
         improved = False
